@@ -73,7 +73,10 @@ class Property(Node):
             p.fmt(fills) if hasattr(p, 'fmt') else str(p) for p in self.parsed
         ])
         # IE cannot handle no space after url()
-        style = re.sub("(url\([^\)]*\))([^\s,])", "\\1 \\2", style)
+        # (quoted strings are copied as they are, inside and outside of url())
+        style = re.sub(
+            r"""("[^"]*"|'[^']*')|(url\((?:"[^"]*"|'[^']*'|[^\)"'])*\))(?=[^\s,])""",
+            lambda m: m.group(1) or m.group(2) + ' ', style)
         fills.update({
             'property': self.property,
             'style': style.strip(),
